@@ -139,6 +139,43 @@ def run_job(job):
                         V("different user / password / server but the same export key (identical client randomness)",
                           "export key %s shared by %s" % (ek, [(repr(u) if len(u) < 30 else repr(u[:8]) + "..(%d)" % len(u), proto.short(p_), sv) for u, p_, sv in whos]))
                 stats["same_tape_registrations"] = stats.get("same_tape_registrations", 0) + len(same_tape)
+            # degenerate randomness at the envelope nonce: the same user / password / server registered again and again with a
+            # client RNG whose 32 nonce bytes are all-zero, constant, or zero in one half. These are registrations like any other:
+            # distinct nonces -> pairwise distinct export keys, and every login returns its own registration's key
+            x16 = proto.H("c16-x16", su, wi)[:16]
+            odd = [("all-zero", bytes(32)), ("all-0xab", b"\xab" * 32), ("all-0xff", b"\xff" * 32), ("all-0x01", b"\x01" * 32), ("upper-half-zero", x16 + bytes(16)),
+                   ("lower-half-zero", bytes(16) + x16), ("last-byte-only", bytes(31) + b"\x01"), ("first-byte-only", b"\x01" + bytes(31))]
+            oddrecs = []
+            for lab, nonce in odd:
+                s.rng("oddn", proto.H("c16-odd", su, wi), tape=nonce)
+                f = proto.register(s, rng, "S1", users[0][1], b"alice", wire=False, tag="odd-" + lab, rng_finish="oddn")
+                evals += 4
+                if not f.ok:
+                    V("control: registration with a degenerate envelope nonce failed", "%s: %s" % (lab, f.first_failure()))
+                    continue
+                got = bx(f.rupl)[s.sz.npk + s.sz.nh:s.sz.npk + s.sz.nh + 32]
+                stats["odd_nonce_registrations"] = stats.get("odd_nonce_registrations", 0) + 1
+                if got != nonce:
+                    V("the envelope nonce is not the value drawn from the caller's RNG", "%s: drew %s, envelope carries %s" % (lab, nonce.hex(), got.hex()))
+                oddrecs.append((lab, f))
+                lg = proto.login(s, rng, rng, "S1", f.file_h, users[0][1], b"alice", wire=False, tag="oddl-" + lab)
+                evals += 4
+                if not lg.ok:
+                    V("control: honest login failed (degenerate envelope nonce)", "%s: %s" % (lab, lg.first_failure()))
+                else:
+                    stats["export_equalities"] += 1
+                    if lg.export_key != f.export_key:
+                        V("login returned an export key different from its registration's", "registration with envelope nonce %s (%s): %s vs %s" % (
+                            lab, nonce.hex(), lg.export_key, f.export_key))
+            eks = {}
+            for lab, f in oddrecs:
+                eks.setdefault(f.export_key, []).append(lab)
+            for ek_, labs in eks.items():
+                if len(labs) > 1:
+                    V("two distinct registrations returned the same export key", "same user, password and server, envelope nonces %s" % labs)
+            for lab, f in oddrecs:
+                if f.export_key in [r_["export"] for r_ in records]:
+                    V("two distinct registrations returned the same export key", "degenerate-nonce registration %s and an ordinary one" % lab)
             # logins in random interleaving
             nlog = 60 if tier == "quick" else 200
             for k in range(nlog):
@@ -180,4 +217,7 @@ def run_job(job):
 
 def floors(tier, stats, results):
     missing = [x for x in okv.SUITES20 if stats.get("suites", {}).get(x, 0) < 50]
-    return ["fewer than 50 successful logins for suites %s" % missing] if missing else []
+    out = ["fewer than 50 successful logins for suites %s" % missing] if missing else []
+    if stats.get("odd_nonce_registrations", 0) < 8 * 20:
+        out.append("fewer than 8 degenerate-nonce registrations per suite")
+    return out
